@@ -31,13 +31,14 @@ Proof.
     + eapply IH; [| |exact H]; [|exact Hb]. destruct (a <? - v1); lia.
 Qed.
 
-Lemma quiesce_range fuel : q_range (quiesce zt osort fuel).
+Lemma quiesce_range fuel : q_range (quiesce zt osort None fuel).
 Proof.
   induction fuel as [|f IH]; intros b a be s v s' Ha Hb H; cbn [quiesce] in H; [discriminate|].
+  unfold out_of_time in H. cbn match in H.
   pose proof (eval_in_range b) as E.
   destruct (be <=? get_evaluation b) eqn:C.
   - inversion H; subst. apply Z.leb_le in C. lia.
-  - destruct (do_sort osort (generate_moves zt b CapturesOnly) (node_searched s)) as [moves s1].
+  - destruct (do_sort osort (generate_moves zt b CapturesOnly) (node_searched (with_clock s (clock s + 1)%N))) as [moves s1].
     eapply (q_loop_range _ IH); [| |exact H]; [|exact Hb]. destruct (a <? get_evaluation b) eqn:L; [lia|].
     apply Z.ltb_ge in L. lia.
 Qed.
@@ -148,7 +149,7 @@ Proof.
   destruct (is_threefold_repetition (table s2) b).
   - inversion H; subst. unfold MATE_SCORE. lia.
   - eapply (ab_body_range (2 * M - NULL_PLY_OFFSET * Z.of_nat (S f)) ltac:(unfold NULL_PLY_OFFSET; lia)
-                          (alpha_beta zt osort None f) (quiesce zt osort f));
+                          (alpha_beta zt osort None f) (quiesce zt osort None f));
       [|apply quiesce_range| | | |exact H]; try assumption.
     replace (2 * M - NULL_PLY_OFFSET * Z.of_nat (S f) + NULL_PLY_OFFSET) with (2 * M - NULL_PLY_OFFSET * Z.of_nat f)
       by (unfold NULL_PLY_OFFSET; lia). exact IH.
